@@ -36,6 +36,7 @@ EXPLANATION += " (R1, round 8) the production validate closure is an evaluated t
 EXPLANATION += " Round 9: (R4) the pinned canonical layout evaluated (Entry::encode: identifier, big-endian length, hash, big-endian timestamp); (R11) = C07.R1: a merge never changes the replica's namespace."
 EXPLANATION += ' (R12, round 10) sync::system_time_now evaluated: microseconds since the epoch of SystemTime::now() and nothing else (no static high-water mark).'
 EXPLANATION += " (R13, round 12) the key algebra of src/keys.rs evaluated function by function: ids, public keys and secrets convert into each other through exactly their own bytes (what local authoring signs with is what the entry's ids verify with)."
+EXPLANATION += " (R14, round 12) = C12.R3's single-entry ingress cells: Replica::insert_remote_entry / insert_entry evaluated - validate_entry is asked about this replica's id, both validations precede the store, a rejected entry reaches neither store nor subscriber."
 
 
 def production_closures(f):
@@ -759,6 +760,14 @@ def r13(ctx):
     keyalg.check(ctx, "C03.R13")
     ctx.floor("C03.R13", 40)
 
+def r14(ctx):
+    """"its namespace is the replica's ... whether the entry arrives as a single remote insert or inside a reconciliation message":
+    the single-entry ingress evaluated (C12.R3's cells) - validate_entry is asked about this replica's id (not the entry's own
+    namespace), both validations precede the store, a rejected entry reaches neither the store nor a subscriber"""
+    from . import syncstep
+    syncstep.check_insert_paths(ctx, "C03.R14")
+    ctx.floor("C03.R14", 12)
+
 def run(ctx):
     ctx.run_rule("C03.R1", r1)
     ctx.run_rule("C03.R2", r2)
@@ -773,3 +782,4 @@ def run(ctx):
     ctx.run_rule("C03.R11", r11)
     ctx.run_rule("C03.R12", r12)
     ctx.run_rule("C03.R13", r13)
+    ctx.run_rule("C03.R14", r14)
